@@ -250,6 +250,7 @@ SERVO = [
     H(KS, 'c13_change_frequency_commands_within_bounds'),
     H(KS, 'c13_step_only_at_or_above_threshold'),
     H(KS, 'c13_demobilize_at_most_one_final_command'),
+    H(KS, 'c13_measurement_arms_control_only_with_an_offset', functions=['statime/src/filters/kalman.rs: KalmanFilter::{measurement, ensure_freq_init}']),
     H(KB, 'c13_basic_filter_commands_are_finite', functions=['statime/src/filters/basic.rs: BasicFilter::measurement']),
 ]
 INSTANCE = [
@@ -335,14 +336,14 @@ PROPS = {
     ),
     'C07': dict(
         verus=[],
-        kani=[ANNOUNCE_RX_REJECT, H(S, 'c09_sync_two_step'), H(S, 'c09_follow_up'), H(S, 'c09_delay_resp'), NOT_SLAVE] + DISPATCH,
+        kani=[ANNOUNCE_RX_REJECT, H(S, 'c09_sync_two_step'), H(S, 'c09_follow_up'), H(S, 'c09_delay_resp'), NOT_SLAVE, APPLY] + DISPATCH,
         assumptions=PORT_ASSUME[:1] + ['two-run non-interference follows from single-run frames plus determinism: an input that leaves the complete view (port state, exchange records, sequence generators, RNG draws, filter and clock records, foreign-master digest, all data sets) equal to the pre-state and yields no action can be deleted from any history',
                                        'invariant used: the parent of a Slave port is acceptable and is not the port itself (established by the S1 application)'],
     ),
     'C08': dict(
         verus=[],
         kani=[RECEIPT_TIMER, APPLY, H(M, 'c10_send_sync'), H(M, 'c10_delay_resp_for_delay_req'), H(S, 'c09_send_e2e_delay_request'),
-              H(Q, 'c05_state_decision_matches_figure_33'), th(H(M, 'c10_follow_up_for_sync_timestamp')), ANNOUNCE_TX0, ANNOUNCE_TX, th(NOT_SLAVE), INSTANCE_BMCA[0], INSTANCE_BMCA[1]],
+              H(Q, 'c05_state_decision_matches_figure_33'), th(H(M, 'c10_follow_up_for_sync_timestamp')), ANNOUNCE_TX0, ANNOUNCE_TX, th(NOT_SLAVE), INSTANCE_BMCA[0], INSTANCE_BMCA[1], SERVO[-2]],
         assumptions=PORT_ASSUME[:1] + ['"at most one slave port" is the paper composition of: S1 only for the port whose Erbest *is* Ebest including the receiving port identity (c05_state_decision...), distinct port identities, and every other decision leaving or not entering Slave (c05_apply...)',
                                        'a filter that has only seen peer-delay measurements not touching the clock is not decided (Kalman float internals)'],
     ),
